@@ -137,8 +137,10 @@ TEXT = {
  "C19": {"level": ("Proved: activations return the angle field untouched, refraction/propagation the magnitude field, dispersion magnitude 1.0, ReLU gate law, negative "
                   "charge = half turn (G); sigmoid output strictly between 0 and a non-zero in-domain magnitude, |tanh output| <= magnitude (S); Snell's law whenever "
                   "|sin t_in| <= n (closed end included), 1/m^2, q/r^n, 1/r; wedge = planar cross product; the quadrilateral helper is the two-triangle cross-product "
-                  "area of the Cartesian corners, invariant under common translation and rotation, = shoelace (E). Partial (explored by metamorphic oracle incl. the "
-                  "critical-angle tie): the float tolerances of these relations. "),
+                  "area of the Cartesian corners, invariant under common translation and rotation, = shoelace (E); the same in ROUNDED arithmetic (area_float, "
+                  "area_invariant_float; on R64: area_rounded): for corners up to 1e40 and blade sums up to 1e6 the helper's value is within 6e-6*(1+R)^2 of the "
+                  "two-triangle cross-product area, through every branch of the edge subtractions, the wedges, both halvings and the sum (B/R). Partial (explored by "
+                  "metamorphic oracle incl. the critical-angle tie): the float tolerances of the optics / field relations. "),
          "note": S_NOTE},
  "C20": {"level": ("The feature model (flags, default set, `all` alias, module gates, re-export gates, inner gates, cross references, feature gates in core files) is "
                   "regenerated from the source on every run and the closure / independence / usability theorems are re-decided by the Lean kernel over all 64 subsets "
